@@ -111,14 +111,6 @@ pub proof fn lemma_radix_round_trip(s: VSeq<char>, n: int, b: int)
 
 } // verus!
 verus! {
-impl vstd::std_specs::convert::FromSpecImpl<String> for Obj {
-    open spec fn obeys_from_spec() -> bool { false }
-    open spec fn from_spec(v: String) -> Obj { arbitrary() }
-}
-impl vstd::std_specs::convert::FromSpecImpl<BigInt> for Obj {
-    open spec fn obeys_from_spec() -> bool { false }
-    open spec fn from_spec(v: BigInt) -> Obj { arbitrary() }
-}
 // ---- std items (assumed: std's documented behaviour) ----
 // char::from_digit panics for radix > 36; Some(lower-case digit) exactly for num < radix
 pub assume_specification[ char::from_digit ](num: u32, radix: u32) -> (r: Option<char>)
